@@ -92,12 +92,15 @@ structure Sh where
   ids : List Doc := []                      -- MIDs / RIDs, LID = index
   all : List Nat := []                      -- LIDs of `_all_`
   tok : Nat → List Nat := fun _ => []       -- LIDs per token
+  created : List Nat := []                  -- tokens whose TokenLIDs object exists (tokenLIDsWorker maps)
+  dict : List Nat := []                     -- tokens a reader can find: registered in tidToVal and FieldTIDs
+  lock : Bool := false                      -- TokenList.appendMu (repaired code only)
   range : Range := none                     -- info.From / info.To
   docsTotal : Nat := 0
   submitted : List Doc := []                -- ghost: documents of every bulk handed to an index worker
 
 inductive WPc
-  | idle | start | block | pos | ids | queue | stats | done
+  | idle | start | block | pos | ids | tokget | queue | stats | done
 deriving DecidableEq, Repr
 
 structure W where
@@ -107,6 +110,7 @@ structure W where
   napp : Nat := 0                           -- len(appendedIDs) = collector.DocsCounter after Filter
   base : Nat := 0                           -- first LID handed out by AppendIDs
   toks : List Nat := []                     -- collector.TokensValues without `_all_` (Filter does not shrink it)
+  newToks : List Nat := []                  -- tokens getTokenLIDs reported as new to this Append
   todo : List (Option Nat × List Nat) := [] -- remaining PutLIDsInQueue calls (none = `_all_`)
 
 inductive RPc
@@ -196,7 +200,8 @@ def evalQ : Query → List (Nat × List Nat) → Nat → Bool × List (Nat × Li
 
 inductive Label
   | wNew (i : Nat) (bulk : List Doc)
-  | wBlock (i : Nat) | wPos (i : Nat) | wIds (i : Nat) | wToks (i : Nat) | wQueue (i : Nat) | wStats (i : Nat)
+  | wBlock (i : Nat) | wPos (i : Nat) | wIds (i : Nat) | wTokGet (i : Nat) | wToks (i : Nat) | wQueue (i : Nat)
+  | wStats (i : Nat)
   | wDone (i : Nat)
   | rNew (i : Nat) (q : Query) (qfrom qto : Nat)
   | rInfo (i : Nat) | rBlocks (i : Nat) | rMapping (i : Nat) | rMids (i : Nat) | rRids (i : Nat)
@@ -220,10 +225,11 @@ re-read `DocBlocks` -/
 structure Cfg where
   allLast : Bool
   live : Bool
+  tlLock : Bool    -- TokenList.Append runs under one mutex (token creation and registration are one critical section)
 deriving DecidableEq, Repr
 
 /-- the code as first read -/
-def Cfg.asRead : Cfg := ⟨false, false⟩
+def Cfg.asRead : Cfg := ⟨false, false, false⟩
 
 def step (c : Cfg) (s : St) : Label → Option St
   | .wNew i bulk =>
@@ -253,10 +259,22 @@ def step (c : Cfg) (s : St) : Label → Option St
       some { s with sh := { s.sh with ids := s.sh.ids ++ w.docs },
                     ws := setW s.ws i { w with pc := .ids, base := s.sh.ids.length } }
     else none
-  | .wToks i =>
+  | .wTokGet i =>
+    -- TokenList.Append, first half: getTokenLIDs - the per-hash workers hand out the TokenLIDs objects and report
+    -- which tokens they had to create
     let w := s.ws i
-    if w.pc = .ids then
-      some { s with ws := setW s.ws i { w with pc := .queue, todo := queueCalls c.allLast w.toks w.docs w.base } }
+    if w.pc = .ids ∧ (c.tlLock = true → s.sh.lock = false) then
+      let nw := w.toks.filter fun t => !s.sh.created.contains t
+      some { s with sh := { s.sh with created := s.sh.created ++ nw, lock := c.tlLock },
+                    ws := setW s.ws i { w with pc := .tokget, newToks := nw } }
+    else none
+  | .wToks i =>
+    -- TokenList.Append, second half: createTIDs + fillFieldTIDs for the tokens this Append created (only now can a
+    -- reader's FindPattern see them); then GroupLIDsByToken
+    let w := s.ws i
+    if w.pc = .tokget then
+      some { s with sh := { s.sh with dict := s.sh.dict ++ w.newToks, lock := false },
+                    ws := setW s.ws i { w with pc := .queue, todo := queueCalls c.allLast w.toks w.docs w.base } }
     else none
   | .wQueue i =>
     let w := s.ws i
@@ -310,7 +328,10 @@ def step (c : Cfg) (s : St) : Label → Option St
       match r.todo with
       | [] => none
       | t :: rest =>
-        let ls := (s.sh.tok t).filter (fun l => decide (l < r.nmids) && r.mapping.contains l)   -- inverseLIDs
+        -- FindPattern over FieldTIDs: a token that is not registered yet has no TID, hence no list at all
+        let ls := if s.sh.dict.contains t then
+            (s.sh.tok t).filter (fun l => decide (l < r.nmids) && r.mapping.contains l)   -- inverseLIDs
+          else []
         some { s with rs := setR s.rs i { r with todo := rest, got := r.got ++ [(t, ls)] } }
     else none
   | .rEval i =>
@@ -364,13 +385,20 @@ theorem reachable_induct (c : Cfg) (P : St → Prop) (h0 : P init)
 
 /-- bulk 0 completely indexed; bulk 1 stopped right after its first `PutLIDsInQueue`; a reader for `NOT 5` -/
 def witnessNot : List Label :=
-  [.wNew 0 [⟨1, 1, [5]⟩], .wBlock 0, .wPos 0, .wIds 0, .wToks 0, .wQueue 0, .wQueue 0, .wStats 0, .wDone 0,
-   .wNew 1 [⟨1, 2, [5]⟩], .wBlock 1, .wPos 1, .wIds 1, .wToks 1, .wQueue 1,
+  [.wNew 0 [⟨1, 1, [5]⟩], .wBlock 0, .wPos 0, .wIds 0, .wTokGet 0, .wToks 0, .wQueue 0, .wQueue 0, .wStats 0, .wDone 0,
+   .wNew 1 [⟨1, 2, [5]⟩], .wBlock 1, .wPos 1, .wIds 1, .wTokGet 1, .wToks 1, .wQueue 1,
    .rNew 0 (.not (.tok 5)) 0 10, .rInfo 0, .rBlocks 0, .rMapping 0, .rMids 0, .rRids 0, .rLeaf 0, .rEval 0]
 
 /-- provider created, then bulk 1 appends its block and positions, then the fetch -/
 def witnessFetch : List Label :=
-  [.wNew 0 [⟨1, 1, [5]⟩], .wBlock 0, .wPos 0, .wIds 0, .wToks 0, .wQueue 0, .wQueue 0, .wStats 0, .wDone 0,
+  [.wNew 0 [⟨1, 1, [5]⟩], .wBlock 0, .wPos 0, .wIds 0, .wTokGet 0, .wToks 0, .wQueue 0, .wQueue 0, .wStats 0, .wDone 0,
    .rNew 0 (.tok 5) 0 10, .rInfo 0, .rBlocks 0, .wNew 1 [⟨1, 2, [5]⟩], .wBlock 1, .wPos 1, .rFetch 0 (1, 2)]
+
+/-- token 5 is created by bulk 0 (`wTokGet 0`) but not yet registered when bulk 1, which meets it as "existing", queues
+all its LIDs (`_all_` last) - a reader for `NOT 5` finds no such token -/
+def witnessDict : List Label :=
+  [.wNew 0 [⟨1, 1, [5]⟩], .wBlock 0, .wPos 0, .wIds 0, .wTokGet 0,
+   .wNew 1 [⟨1, 2, [5]⟩], .wBlock 1, .wPos 1, .wIds 1, .wTokGet 1, .wToks 1, .wQueue 1, .wQueue 1, .wStats 1, .wDone 1,
+   .rNew 0 (.not (.tok 5)) 0 10, .rInfo 0, .rBlocks 0, .rMapping 0, .rMids 0, .rRids 0, .rLeaf 0, .rEval 0]
 
 end SV.ActiveConc
